@@ -10,11 +10,14 @@ package shmipc
 //   finish                       producers in order to completion, then the consumer until idle with nothing in flight
 
 import (
+	"encoding/binary"
 	"fmt"
 	"io"
 	"math/rand"
 	"strings"
 	"sync"
+	"sync/atomic"
+	"time"
 )
 
 func init() {
@@ -123,6 +126,9 @@ func c05Label(site string) string {
 }
 
 func c05Gen(r *rand.Rand, tier string, idx int) []string {
+	if idx%150 == 49 {
+		return []string{fmt.Sprintf("slowpath %d", []int{0, 1, 4095, 4096, 4096}[r.Intn(5)])}
+	}
 	cap := []int{1, 2, 3, 8}[r.Intn(4)]
 	np := 1 + r.Intn(3)
 	var ks []string
@@ -292,7 +298,83 @@ func (c *c05Run) finish() {
 	}
 }
 
+// slowpath <pending>: the producer that won the wake-up flag finds the connection busy (a long write is in progress) and
+// <pending> events already waiting for the send loop (4096 = the channel is full): its polling event must still reach the
+// connection once the write is over - the caller may have to wait, the notification may not be dropped.
+func c05SlowPath(f []string) vResult {
+	res := vResult{noModel: true, out: []string{"done"}}
+	pending := vAtoi(f[1])
+	if pending < 0 || pending > 4096 {
+		res.out = []string{"bad-op"}
+		return res
+	}
+	qa, _ := vQueuePair(8)
+	ca := &vStubConn{}
+	s := vBareSession(true, qa, nil, ca)
+	atomic.StoreUint32(&s.writing, 1) // somebody is in the middle of a write on the control connection
+	for i := 0; i < pending; i++ {
+		var ev [headerSize + 4]byte
+		header(ev[:]).encode(headerSize+4, s.communicationVersion, typeStreamClose)
+		binary.BigEndian.PutUint32(ev[headerSize:], 0x7ffffff0) // a stream id nobody owns
+		s.sendCh <- sendReady{nil, ev[:], nil}
+	}
+	if err := s.queueManager.sendQueue.put(queueElement{seqID: 1, offsetInShmBuf: 0, status: 0}); err != nil {
+		res.specFail, res.key = "put failed: "+err.Error(), "setup"
+		return res
+	}
+	ret := make(chan error, 1)
+	go func() { ret <- s.wakeUpPeer() }()
+	time.Sleep(20 * time.Millisecond)
+	// the long write ends (what writeEventData's caller does), the send loop works the backlog off
+	go s.send()
+	atomic.StoreUint32(&s.writing, 0)
+	asyncNotify(s.notifyContinueWriteCh)
+	select {
+	case <-ret:
+	case <-time.After(8 * time.Second):
+		res.specFail, res.key = "wakeUpPeer did not return within 8 s although the send loop is running and the connection is free", "wake-blocks"
+	}
+	for t0 := time.Now(); time.Since(t0) < 5*time.Second && (len(s.sendCh) > 0 || atomic.LoadUint32(&s.writing) != 0); {
+		time.Sleep(time.Millisecond)
+	}
+	time.Sleep(5 * time.Millisecond)
+	close(s.shutdownCh)
+	polls := 0
+	ca.mu.Lock()
+	for _, w := range ca.wr {
+		for len(w) >= headerSize {
+			h := header(w[:headerSize])
+			l := int(h.Length())
+			if l < headerSize || l > len(w) {
+				break
+			}
+			if h.MsgType() == typePolling {
+				polls++
+			}
+			w = w[l:]
+		}
+	}
+	ca.mu.Unlock()
+	q := s.queueManager.sendQueue
+	// S (C05): a non-empty queue with an idle consumer always has a notification in flight
+	if res.specFail == "" && q.size() > 0 && polls == 0 {
+		res.specFail = fmt.Sprintf("the producer won the wake-up flag (workingFlag=%d) and wakeUpPeer returned nil with %d event(s) already waiting for the send loop; the connection is idle again, %d element(s) sit in the queue, and no polling event was ever written: nothing will wake the consumer",
+			atomic.LoadUint32(q.workingFlag), pending, q.size())
+		res.key = "stranded-element"
+	}
+	res.tags = []string{"wake-slow-path"}
+	if pending == 4096 {
+		res.tags = append(res.tags, "send-channel-full")
+	}
+	return res
+}
+
 func c05Exec(ops []string) vResult {
+	if len(ops) == 1 && strings.HasPrefix(ops[0], "slowpath ") {
+		if f := vFields(ops[0]); len(f) == 2 {
+			return c05SlowPath(f)
+		}
+	}
 	c := &c05Run{tags: map[string]bool{}}
 	var out []string
 	started := false
